@@ -3,6 +3,7 @@ package main
 // C07 — restoring a table stream reproduces exactly the content that was captured.
 
 import (
+	"go/token"
 	"go/types"
 	"strings"
 
@@ -755,7 +756,44 @@ func c07Checksum(w *World, r *Report) {
 		if !strings.HasSuffix(Expr(sl.Slice), ".Tables") {
 			continue
 		}
-		checkFullTraversal(w, ob, sl, "tables of the manifest", isOpen)
+		// an option of the client that did not exist on the reviewed tree (a dry-run switch, off by
+		// default) may stand in for the step: the skip then depends on configuration, not on the table
+		isOptionTest := func(in ssa.Instruction) bool {
+			iff, ok := in.(*ssa.If)
+			if !ok {
+				return false
+			}
+			cond := iff.Cond
+			if u, isNot := cond.(*ssa.UnOp); isNot && u.Op == token.NOT {
+				cond = u.X
+			}
+			ld, ok := cond.(*ssa.UnOp)
+			if !ok || ld.Op != token.MUL {
+				return false
+			}
+			fa, ok := ld.X.(*ssa.FieldAddr)
+			if !ok || len(rs.Params) == 0 {
+				return false
+			}
+			base := fa.X
+			if l2, isLoad := base.(*ssa.UnOp); isLoad {
+				if al, isAl := l2.X.(*ssa.Alloc); isAl {
+					if sts := storesTo(rs, al); len(sts) == 1 {
+						base = sts[0].Val
+					}
+				}
+			}
+			if base != ssa.Value(rs.Params[0]) {
+				return false
+			}
+			nt, ok := deref(fa.X.Type()).(*types.Named)
+			if !ok || nt.Obj().Pkg() == nil {
+				return false
+			}
+			_, known := reviewedInfo["field "+nt.Obj().Pkg().Path()+"."+nt.Obj().Name()+"."+fieldAddrName(fa)]
+			return !known && len(reviewedInfo) > 0
+		}
+		checkFullTraversal(w, ob, sl, "tables of the manifest", func(in ssa.Instruction) bool { return isOpen(in) || isOptionTest(in) })
 	}
 	if nopen == 0 {
 		ob.Undecided("shape", "the backup client never opens a restore stream")
